@@ -60,6 +60,14 @@ class PushP:
         self._sig("stop")
 
 
+class ValuePushP(PushP):
+    """a producer written as a value class (what a plain @attr.s / @dataclass gives): __eq__ without __hash__"""
+    __hash__ = None
+
+    def __eq__(self, other):
+        return self is other
+
+
 class QueuePushP(PushP):
     """a producer that is also a container (a queue of pending items): it is empty, hence false, most of the time"""
 
@@ -176,6 +184,7 @@ class Driver:
         self.left_on_pause = 0
         self.falsy_producers = 0
         self.unregisters_in_connectionLost = 0
+        self.unhashable_tried = 0
 
     def side_of(self, proto):
         return proto.name[0]
@@ -247,6 +256,19 @@ class Driver:
                     self.budget["reg"] -= 1
                     p = rng.choice(free)
                     if rng.random() < 0.65:
+                        if rng.random() < 0.06:
+                            # an unhashable producer: refusing it is fine, but it must not harm the others
+                            bad = ValuePushP(self, p)
+                            self.unhashable_tried += 1
+                            try:
+                                p.transport.registerProducer(bad, True)
+                                self.producers.append(bad)
+                                return
+                            except TypeError:
+                                pass
+                            except Exception as e:
+                                self.api_errors.append(("registerProducer(unhashable)", p.name, type(e).__name__, repr(e)[:120]))
+                            # the application falls back to an ordinary producer for this subchannel
                         prod = (QueuePushP if rng.random() < 0.2 else PushP)(self, p, ignores=rng.random() < 0.15)
                         prod.leaves_on_pause = rng.random() < 0.12
                         self.falsy_producers += int(isinstance(prod, QueuePushP))
@@ -524,7 +546,7 @@ def run_case(spec):
             "counters": {"probes": stats["probes"], "producer_pauses": pauses, "producer_resumes": resumes,
                          "producers": len(drv.producers), "pull_producers": sum(q.kind == "pull" for q in drv.producers), "pull_producers_finished": pull_finished,
                          "inbound_pause_calls": drv.inbound_calls, "pauses_inside_dataReceived": drv.pauses_in_data, "cuts": stats["cuts"], "notrans_seen": len(MON.notrans),
-                         "log_errors_seen": len(MON.errors), "producers_that_are_false": drv.falsy_producers, "producers_left_inside_pause": drv.left_on_pause, "pauses_after_connectionLost": drv.late_pauses, "unregisters_in_connectionLost": drv.unregisters_in_connectionLost},
+                         "log_errors_seen": len(MON.errors), "producers_that_are_false": drv.falsy_producers, "producers_left_inside_pause": drv.left_on_pause, "pauses_after_connectionLost": drv.late_pauses, "unregisters_in_connectionLost": drv.unregisters_in_connectionLost, "unhashable_producers_tried": drv.unhashable_tried},
             "sets": {"logged_errors": sorted({e[0] + ":" + e[3] for e in MON.errors})},
             "sample": {"spec": spec, "buffer_size": r.default_buffer_size,
                        "producers": [(q.proto.name, q.kind, [w for (_, w) in q.signals][:10]) for q in drv.producers][:5],
